@@ -290,7 +290,7 @@ func c06RunHistory(s C06Scenario, e *storeEnv, res *Result, faults bool) (hist *
 					fail("%s: reopening after a clean Stop failed: %v", tag, err)
 					return
 				}
-			} else if err := e.st.Start(ctx); err != nil {
+			} else if err := startScoped(e.st.Start); err != nil {
 				fail("%s: Start after Stop failed: %v", tag, err)
 				return
 			}
@@ -318,7 +318,7 @@ func c06CheckImage(cfg StoreCfg, img *memds.Mem, chain *vh.Chain, must map[uint6
 	if err != nil {
 		return fmt.Sprintf("%s: NewStore: %v", tag, err)
 	}
-	if err := st.Start(ctx); err != nil {
+	if err := startScoped(st.Start); err != nil {
 		return fmt.Sprintf("%s: Start on the surviving data failed: %v", tag, err)
 	}
 	defer func() {
